@@ -278,7 +278,7 @@ func charRange(p *core.Prog, r *core.Result, sizes types.Sizes) {
 	if sp == nil {
 		return
 	}
-	cm, _ := sp.Members["charMarker"].(*ssa.NamedConst)
+	cm := p.Const("ubjson", "charMarker")
 	if cm == nil {
 		r.Undecided(".CHAR-RANGE", "ubjson.charMarker", "char marker constant not found")
 		return
